@@ -340,6 +340,8 @@ def run(ctx):
     # and [read / refused item; committing item] and [committing attribute operation; wrapped Get] batches of one session
     engine_check.scenario_run(ctx, "scen_engine.read_commit_builder", MONITORS, nontrivial, RULE, 16, 300, 16,
                               "read_then_commit_part", seed_base=840000)
+    engine_check.scenario_run(ctx, "scen_engine.attr_commit_builder", MONITORS, nontrivial, RULE, 16, 300, 14,
+                              "attribute_op_then_commit_part", seed_base=850000)
     dom, outside = theorem_domain(ctx, grid)
     ctx.coverage["theorem_domain"] = dom
     ctx.coverage["items_outside_theorem_domain_samples"] = outside
